@@ -89,7 +89,7 @@ def write_read(spec, path, d):
     CommonRoadFileWriter(sc, pps, decimal_precision=d).write_to_file(path, OverwriteExistingFile.ALWAYS)
     after_write = S.snapshot(sc, pps)
     sc2, pps2 = CommonRoadFileReader(path).open()
-    return before, after_write, S.snapshot(sc2, pps2)
+    return before, after_write, S.snapshot(sc2, pps2), (sc, pps, sc2, pps2)
 
 
 def _class_of(path, kind):
@@ -160,7 +160,9 @@ def judge(ctx, spec, d, path, model=True):
     if r[0] == "err":
         ctx.fail(f"C01/write-read/raises-{r[1]}", f"write->read raised {r[2]} at precision {d}", case)
         return None
-    before, after_write, back = r[1]
+    before, after_write, back, objs = r[1]
+    if model:
+        correspond(ctx, case, spec, d, path, *objs)
     # XSD validity of the written file measures the generator (schema-expressible by construction)
     from lxml import etree
     try:
@@ -185,6 +187,223 @@ def judge(ctx, spec, d, path, model=True):
         ctx.fail(f"C01/roundtrip/{cls}", f"precision {d}: {p}: original {a!r} read back {b!r}", case,
                  detail={"path": p, "kind": kind, "original": a, "read_back": b})
     return before, back
+
+
+# ------------------------------------------------------------------------------------------------ model side
+
+class Reals:
+    """str(np.float64(x)) of every real handed to the model (the model's reals are these strings)."""
+
+    def __init__(self):
+        self.seen = {}
+
+    def __call__(self, x):
+        import numpy as np
+        v = np.float64(x)
+        s = str(v)
+        self.seen[s] = v
+        return s
+
+    def fix(self, d):
+        return [[s, format(v, ".{}f".format(d))] for s, v in self.seen.items() if "e" in s]
+
+
+def m_pt(R, p):
+    return {"x": R(p[0]), "y": R(p[1])}
+
+
+def m_shape1(R, s):
+    from commonroad.geometry.shape import Circle, Polygon, Rectangle
+    if isinstance(s, Rectangle):
+        return {"rect": {"l": R(s.length), "w": R(s.width), "o": R(s.orientation), "c": m_pt(R, s.center)}}
+    if isinstance(s, Circle):
+        return {"circ": {"r": R(s.radius), "c": m_pt(R, s.center)}}
+    if isinstance(s, Polygon):
+        return {"poly": {"vs": [m_pt(R, v) for v in s.vertices]}}
+    raise TypeError(type(s))
+
+
+def m_shape(R, s):
+    from commonroad.geometry.shape import ShapeGroup
+    if isinstance(s, ShapeGroup):
+        return {"group": {"l": [m_shape1(R, x) for x in s.shapes]}}
+    return {"one": {"s": m_shape1(R, s)}}
+
+
+def m_time(t):
+    from commonroad.common.util import Interval
+    if isinstance(t, Interval):
+        return {"interval": {"lo": int(t.start), "hi": int(t.end)}}
+    return {"exact": {"t": int(t)}}
+
+
+def m_val(R, v):
+    from commonroad.common.util import Interval
+    if isinstance(v, Interval):
+        return {"interval": {"lo": R(v.start), "hi": R(v.end)}}
+    return {"exact": {"v": R(v)}}
+
+
+def m_state(R, st, goal_lanelets=None):
+    from commonroad.geometry.shape import Shape
+    fields = []
+    for a in st.used_attributes:
+        v = getattr(st, a)
+        if a == "time_step":
+            sv = {"time": {"t": m_time(v)}}
+        elif a == "position":
+            if goal_lanelets:
+                pos = {"lanelets": {"ids": [int(i) for i in goal_lanelets]}}
+            elif isinstance(v, Shape):
+                pos = {"region": {"s": m_shape(R, v)}}
+            else:
+                pos = {"point": {"p": m_pt(R, v)}}
+            sv = {"pos": {"p": pos}}
+        else:
+            sv = {"val": {"v": m_val(R, v)}}
+        fields.append([a, sv])
+    return {"fields": fields}
+
+
+def m_signal(sg):
+    if sg is None:
+        return None
+    g = lambda n: (bool(getattr(sg, n)) if hasattr(sg, n) else None)
+    return {"time": int(sg.time_step), "horn": g("horn"), "indicatorLeft": g("indicator_left"), "indicatorRight": g("indicator_right"),
+            "brakingLights": g("braking_lights"), "hazardWarningLights": g("hazard_warning_lights"),
+            "flashingBlueLights": g("flashing_blue_lights")}
+
+
+def m_occs(R, occs):
+    return [{"shape": m_shape(R, o.shape), "time": m_time(o.time_step)} for o in occs]
+
+
+def m_doc(R, sc, pps):
+    from commonroad.prediction.prediction import SetBasedPrediction, TrajectoryPrediction
+    from commonroad.scenario.obstacle import DynamicObstacle, EnvironmentObstacle, PhantomObstacle, StaticObstacle
+    net = sc.lanelet_network
+    ids = lambda s: [int(i) for i in (s or [])]
+    doc = {"lanelets": [], "signs": [], "lights": [], "intersections": [], "statics": [], "dynamics": [], "phantoms": [], "envs": [],
+           "problems": []}
+    for ln in net.lanelets:
+        sl = ln.stop_line
+        doc["lanelets"].append({
+            "id": int(ln.lanelet_id),
+            "left": {"pts": [m_pt(R, p) for p in ln.left_vertices], "marking": ln.line_marking_left_vertices.value},
+            "right": {"pts": [m_pt(R, p) for p in ln.right_vertices], "marking": ln.line_marking_right_vertices.value},
+            "pred": ids(ln.predecessor), "succ": ids(ln.successor),
+            "adjL": None if ln.adj_left is None else {"ref": int(ln.adj_left), "same": bool(ln.adj_left_same_direction)},
+            "adjR": None if ln.adj_right is None else {"ref": int(ln.adj_right), "same": bool(ln.adj_right_same_direction)},
+            "stop": None if sl is None else {
+                "pts": None if sl.start is None and sl.end is None else [m_pt(R, sl.start), m_pt(R, sl.end)],
+                "marking": sl.line_marking.value, "signRefs": ids(sl.traffic_sign_ref), "lightRefs": ids(sl.traffic_light_ref)},
+            "types": [t.value for t in ln.lanelet_type], "oneWay": [t.value for t in ln.user_one_way],
+            "bidir": [t.value for t in ln.user_bidirectional], "signs": ids(ln.traffic_signs), "lights": ids(ln.traffic_lights)})
+    for s in net.traffic_signs:
+        doc["signs"].append({"id": int(s.traffic_sign_id),
+                             "elements": [{"id": str(e.traffic_sign_element_id.value), "values": [str(v) for v in e.additional_values]}
+                                          for e in s.traffic_sign_elements],
+                             "position": None if s.position is None else m_pt(R, s.position), "virtual": bool(s.virtual)})
+    for t in net.traffic_lights:
+        c = t.traffic_light_cycle
+        doc["lights"].append({"id": int(t.traffic_light_id),
+                              "cycle": None if c is None else {
+                                  "elements": [{"duration": int(e.duration), "color": e.state.value} for e in c.cycle_elements],
+                                  "offset": int(c.time_offset or 0)},
+                              "position": None if t.position is None else m_pt(R, t.position), "direction": t.direction.value,
+                              "active": bool(t.active)})
+    for it in net.intersections:
+        doc["intersections"].append({
+            "id": int(it.intersection_id),
+            "incomings": [{"id": int(i.incoming_id), "lanelets": ids(i.incoming_lanelets), "right": ids(i.successors_right),
+                           "straight": ids(i.successors_straight), "left": ids(i.successors_left),
+                           "leftOf": None if i.left_of is None else int(i.left_of)} for i in it.incomings],
+            "crossings": ids(it.crossings)})
+    for o in sc.obstacles:
+        if isinstance(o, StaticObstacle):
+            doc["statics"].append({"id": int(o.obstacle_id), "type": o.obstacle_type.value, "shape": m_shape(R, o.obstacle_shape),
+                                   "init": m_state(R, o.initial_state)})
+        elif isinstance(o, DynamicObstacle):
+            p = o.prediction
+            if isinstance(p, SetBasedPrediction):
+                pred = {"occ": {"os": m_occs(R, p.occupancy_set)}}
+            elif isinstance(p, TrajectoryPrediction):
+                pred = {"traj": {"states": [m_state(R, s) for s in p.trajectory.state_list]}}
+            else:
+                pred = "none"
+            doc["dynamics"].append({"id": int(o.obstacle_id), "type": o.obstacle_type.value, "shape": m_shape(R, o.obstacle_shape),
+                                    "init": m_state(R, o.initial_state), "initSignal": m_signal(o.initial_signal_state),
+                                    "pred": pred, "series": [m_signal(s) for s in (o.signal_series or [])]})
+        elif isinstance(o, PhantomObstacle):
+            p = o.prediction
+            doc["phantoms"].append({"id": int(o.obstacle_id),
+                                    "occ": m_occs(R, p.occupancy_set) if isinstance(p, SetBasedPrediction) else None})
+        elif isinstance(o, EnvironmentObstacle):
+            doc["envs"].append({"id": int(o.obstacle_id), "type": o.obstacle_type.value, "shape": m_shape(R, o.obstacle_shape)})
+    for p in pps.planning_problem_dict.values():
+        gl = p.goal.lanelets_of_goal_position or {}
+        doc["problems"].append({"id": int(p.planning_problem_id), "init": m_state(R, p.initial_state),
+                                "goals": [m_state(R, g, gl.get(i)) for i, g in enumerate(p.goal.state_list)]})
+    return doc
+
+
+_CFG = {}
+
+
+def model_cfg(country, d, fix):
+    from commonroad.scenario.state import SpecificStateClasses
+    from commonroad.scenario.traffic_sign import TrafficSignIDCountries
+    if "classes" not in _CFG:
+        _CFG["classes"] = [list(c().attributes) for c in SpecificStateClasses]
+    en = TrafficSignIDCountries[country]
+    return {"P": {"d": d, "fix": fix}, "classes": _CFG["classes"], "signVals": [m.value for m in en],
+            "maxSpeed": en.MAX_SPEED.value if hasattr(en, "MAX_SPEED") else None}
+
+
+def xml_json(el):
+    return [el.tag, [[k, v] for k, v in el.attrib.items()], (el.text or "").strip(), [xml_json(c) for c in el]]
+
+
+REAL_KEYS = {"x", "y", "l", "w", "o", "r", "v", "lo", "hi"}
+SET_KEYS = {"types", "oneWay", "bidir", "signs", "lights", "signRefs", "lightRefs", "lanelets", "right", "straight", "left",
+            "crossings", "pred", "succ"}
+
+
+def canon_doc(j, key=None):
+    """reals (decimal strings) -> exact value of the double they denote; set-valued lists sorted"""
+    if isinstance(j, dict):
+        return {k: canon_doc(v, k) for k, v in j.items()}
+    if isinstance(j, list):
+        out = [canon_doc(v, None) for v in j]
+        if key in SET_KEYS and all(isinstance(v, (int, str)) for v in out):
+            out = sorted(out, key=str)
+        return out
+    if isinstance(j, str) and key in REAL_KEYS:
+        v = float(j)
+        return "R:" + (v + 0.0).hex() if v != 0 else "R:0"
+    return j
+
+
+def correspond(ctx, case, spec, d, path, sc, pps, sc2, pps2):
+    """model encode vs the written file; model decode of the written file vs what the reader returned; model round trip vs norm"""
+    from lxml import etree
+    country = spec["scenario_id"]["country"]
+    R = Reals()
+    doc = m_doc(R, sc, pps)
+    cfg = model_cfg(country, d, R.fix(d))
+    root = etree.parse(path).getroot()
+    kids = [xml_json(c) for c in root]
+    body = [k for k in kids if k[0] not in ("location", "scenarioTags")]
+    enc = ctx.driver.ask("C01", "encode", {"cfg": cfg, "doc": doc})
+    ctx.compare(case, {"ok": body}, enc, "XMLFileWriter body elements vs CR.X.encodeDoc")
+    dec = ctx.driver.ask("C01", "decode", {"cfg": cfg, "kids": kids})
+    R2 = Reals()
+    back = m_doc(R2, sc2, pps2)
+    ctx.compare(case, {"ok": canon_doc(back)}, {"ok": canon_doc(dec["ok"])} if "ok" in dec else dec,
+                "XMLFileReader result vs CR.X.decodeDoc of the written file")
+    rt = ctx.driver.ask("C01", "roundtrip", {"cfg": cfg, "doc": doc})
+    nm = ctx.driver.ask("C01", "norm", {"cfg": cfg, "doc": doc})
+    ctx.compare(case, rt, nm, "CR.X.decodeDoc (encodeDoc x) vs CR.X.normDoc x (the statement of C01_xml_roundtrip, executed)")
 
 
 # ------------------------------------------------------------------------------------------------ run
